@@ -434,3 +434,96 @@ pub fn starttls_results(ctx: &Ctx) -> Report {
     rep.sample(json!({"lane":"starttls_results","codes":codes,"fields":["rc","matched","text","refs"]}));
     rep
 }
+
+// ---------------- result codes at and beyond the edges of the code's type ----------------
+
+/// The result code handed to the caller is the one the server encoded.  `LdapResult::rc` is a
+/// `u32`; an ENUMERATED that does not fit (2^32 and up, negative) or has no content octets cannot be
+/// reported faithfully, so the operation must fail rather than report some other code (2^32 read as
+/// 0 would be "success").  Codes that fit, in any legal encoding, must be reported exactly.
+pub fn odd_result_codes(ctx: &Ctx) -> Report {
+    use crate::ber::{Node, APP, UNIV};
+    let mut rep = Report::new();
+    // (content octets of the ENUMERATED, the value if it is a code the type can hold)
+    let mut codes: Vec<(Vec<u8>, Option<u32>, &'static str)> = vec![
+        (vec![0x01, 0, 0, 0, 0], None, "2^32"),
+        (vec![0x01, 0, 0, 0, 49], None, "2^32+49"),
+        (vec![0x01, 0, 0, 0, 0, 0, 0, 0, 0], None, "2^64"),
+        (vec![0x7f, 0xff, 0xff, 0xff, 0xff, 0xff, 0xff, 0xff], None, "2^63-1"),
+        (vec![], None, "no content octets"),
+        (vec![0xff], None, "-1"),
+        (vec![0x80, 0, 0, 0], None, "-2^31"),
+        (vec![0xff, 0x00], None, "-256"),
+        (vec![0x00, 0x80, 0, 0, 0], Some(1 << 31), "2^31"),
+        (vec![0x00, 0xff, 0xff, 0xff, 0xff], Some(u32::MAX), "2^32-1"),
+        (vec![0x7f, 0xff, 0xff, 0xff], Some(i32::MAX as u32), "2^31-1"),
+        (vec![0x00, 0x00], Some(0), "0 in two octets"),
+        (vec![0x00, 0x00, 0x00, 0x00, 0x31], Some(49), "49 in five octets"),
+        (vec![0x10, 0x00], Some(4096), "4096"),
+        (vec![0x00], Some(0), "0"),
+    ];
+    if ctx.tiny {
+        codes.truncate(6);
+    }
+    let mut rng = case_rng(ctx.seed, "odd_result_codes", 0);
+    for (content, fits, label) in &codes {
+        for kind in 0..5u8 {
+            let rt = runtime(rng.next());
+            let content2 = content.clone();
+            let out = rt.block_on(async move {
+                let c = connect();
+                let mut ldap = c.ldap;
+                let mut server = c.server;
+                let srv = tokio::spawn(async move {
+                    if let Some(w) = server.request().await {
+                        if let Ok(m) = w.msg {
+                            let tag = match &m.op {
+                                Req::Bind { .. } => 1,
+                                Req::Search { .. } => 5,
+                                Req::Del(_) => 11,
+                                Req::Compare { .. } => 15,
+                                _ => 24,
+                            };
+                            let op = Node::C { class: APP, tag, kids: vec![Node::P { class: UNIV, tag: 10, data: content2 }, ber::octets(b""), ber::octets(b"t:odd")] };
+                            server.send(&ber::encode_min(&ber::seq(vec![ber::integer(m.id), op])));
+                        }
+                    }
+                    server.wait_closed().await;
+                });
+                let call = match kind {
+                    0 => world::Call::Bind { dn: "cn=x".into(), pw: "p".into() },
+                    1 => world::Call::Search(crate::world::SearchSpec { opts: None, ..gen::gen_search(&mut Rng::new(7), 1) }),
+                    2 => world::Call::Delete { dn: "cn=x".into() },
+                    3 => world::Call::Compare { dn: "cn=x".into(), attr: "a".into(), val: b"v".to_vec() },
+                    _ => world::Call::Extended { name: "1.3.6.1.4.1.4203.1.11.3".into(), val: None },
+                };
+                let o = world::watchdog(invoke(&mut ldap, &call)).await.unwrap_or(Outcome::Hung);
+                drop(ldap);
+                srv.abort();
+                let _ = c.driver.await;
+                o
+            });
+            let kname = ["bind", "search", "delete", "compare", "extended"][kind as usize];
+            let replay = json!({"lane":"odd_result_codes","code":label,"op":kname});
+            let got_rc = match &out {
+                Outcome::Res(r) => Some(r.rc),
+                Outcome::Search(_, r) => Some(r.rc),
+                _ => None,
+            };
+            match (fits, got_rc, &out) {
+                (_, _, Outcome::Hung) | (_, _, Outcome::Panic(_)) => rep.violation(format!("C03:odd-result-code:{}:{}", kname, out.class().to_lowercase()), format!("resultCode {} ({}): {:?}", label, ber::hex(content), trunc(&out)), replay),
+                (Some(v), Some(g), _) if *v == g => rep.count("result_codes_at_the_edge_reported_exactly", 1),
+                (Some(v), g, _) => rep.violation(format!("C03:{}:rc", kname), format!("resultCode {} (ENUMERATED content {}) = {}: caller got {:?} ({})", label, ber::hex(content), v, g, out.class()), replay),
+                (None, Some(g), _) => rep.violation(
+                    format!("C03:result-code-that-was-never-sent:{}{}", kname, if g == 0 { ":reported-as-success" } else { "" }),
+                    format!("resultCode {} (ENUMERATED content {}) does not fit the result code's type; the caller was handed Ok with rc={}", label, ber::hex(content), g),
+                    replay,
+                ),
+                (None, None, _) => rep.count("unrepresentable_result_codes_failed_the_operation", 1),
+            }
+            rep.case(Some(fnv(format!("{}{}", label, kname).as_bytes())));
+        }
+    }
+    rep.sample(json!({"lane":"odd_result_codes","codes":codes.iter().map(|c| c.2).collect::<Vec<_>>()}));
+    rep
+}
